@@ -45,6 +45,10 @@ CLAIMED = {
    "Valid geometries: every structural shape S(d,w) x 4 coordinate types x 9 ordinate frames (k/10^q on grids, on rounding ties, in between, negative, large) x XY precisions (incl. out-of-range -9 and 8) x Z/M precision pairs (incl. out-of-range) x every subset of {size, bbox, close rings} x ID lists (exact, one too many, one too few, on types without members): UnmarshalTWKB(MarshalTWKB(...)) compared with the original under exact rational rounding (each ordinate must be the float nearest to m/10^p with |m - x*10^p| <= 1/2), tolerated losses predicted exactly; size / bbox / ID headers read by an independent varint-level reader and compared with the decoded geometry and with UnmarshalTWKBSize / Envelope / IDList.",
    "Trust: refcodec/twkb.go (independent reader), math/big rationals. Cases where rounding makes the geometry invalid are outside 'admissible precisions' and only counted; |x*10^p| >= 2^50 is outside the domain.",
    "bounded-exhaustive enumeration of shapes x configurations on the real code against exact rational rounding and an independent reference reader", "4/C07"),
+ "C08": ("fault_enumeration",
+   "A corpus of valid encodings (WKB little/big endian, TWKB with header subsets and ID lists, WKT, GeoJSON, Feature, FeatureCollection of ~90 geometries over 7 types x 4 coordinate types x empty/1/2 members/nested) is put through every fault operator the property lists - every truncation, every single-byte substitution (all 256 values at order/type/count/header positions, boundary values elsewhere), every 4-byte count overwritten with 0, 1, 2^31-1, 2^31, 2^32-1 (and 2^24, 2^16, 1000) in both byte orders, varints 2^k / 2^64-1 / over-long spliced at every position, every token deleted / duplicated / replaced by each vocabulary token, every prefix - plus grammar-generated GeoJSON collections and every byte string of length <= 2 and every string of length 3..6 (thorough 8) over {00,01,02,07,10,ff}. Each case runs in a sacrificial process (RLIMIT_AS 4 GiB) through every entry point of its format: the four Unmarshal functions, the three TWKB header readers, Scan on 9 types, UnmarshalJSON on 10. Oracle: no panic, no process death, bytes allocated by the library call <= 1 MiB + 512 x len(input), returned geometries pass Validate (and the definitional oracle inside C03's domain) and re-encode in every format without panicking.",
+   "Coverage-guided mutation named in the quantifier is sampling (a different family) and is not done; inputs are at most ~2 KiB, length matters only through count fields, which are overwritten with every boundary value. Trust: the supervisor/worker harness in checks/c08.go.",
+   "exhaustive enumeration of fault operators over a corpus, each case executed on the real decoders in a sacrificial process", "4/C08"),
 }
 
 PENDING = {}
